@@ -543,6 +543,11 @@ func (s *State) execAppend(c *ssa.CallCommon, args []Val, where string) Val {
 	if isString(y.T) {
 		s.unsupported("append(bytes, string...) at %s", where)
 	}
+	if x.Shared {
+		// slices are values in this encoding; appending to a slice that was cut from another one may overwrite that one's
+		// elements through the shared backing array - outside the model, refused rather than verified wrongly
+		s.unsupported("append to a re-sliced slice at %s: it may overwrite elements of the slice it was cut from (backing-array aliasing is not modelled)", where)
+	}
 	n := app("+", x.Terms[0], y.Terms[0])
 	out.Terms = []string{s.define("len", sInt, n), and(x.Terms[1], eq(y.Terms[0], "0"))}
 	if cn := constIndexStr(y.Terms[0]); cn >= 0 && cn == len(y.Elems) && cn <= 8 {
